@@ -307,3 +307,24 @@ func EqT(a, b *T) *T {
 	}
 	return App("=", a, b)
 }
+
+// ExpandLets replaces (let ((x e) ...) body) by body with the bindings substituted (solvers print values that way).
+func ExpandLets(t *T) *T {
+	if t.L == nil {
+		return t
+	}
+	if t.Head() == "let" && len(t.L) == 3 {
+		env := map[string]*T{}
+		for _, b := range t.L[1].L {
+			if len(b.L) == 2 && b.L[0].IsAtom() {
+				env[b.L[0].A] = ExpandLets(Subst(b.L[1], env))
+			}
+		}
+		return ExpandLets(Subst(t.L[2], env))
+	}
+	l := make([]*T, len(t.L))
+	for i, x := range t.L {
+		l[i] = ExpandLets(x)
+	}
+	return &T{L: l}
+}
